@@ -229,6 +229,60 @@ Proof.
   destruct H as (id & -> & _). discriminate.
 Qed.
 
+(* ---- every sequence of open(Some) / open(None) / close, from any state satisfying the invariant ---- *)
+Definition is_open_close (o : op) : bool :=
+  match o with OpenSome _ | OpenNone | Close _ => true | _ => false end.
+
+(* enough fuel for the counter loop, read off the table itself *)
+Definition gfuel (self : val) : nat := S (S (length (ids_of "slots" self))).
+
+Definition gstep (me self : val) (o : op) : val * val :=
+  match o with
+  | OpenSome id => gen_ChannelSlots_insert (ext_model true) ext_st_model (gfuel self) self (VC "Some" [VN id]) me
+  | OpenNone => gen_ChannelSlots_insert (ext_model true) ext_st_model (gfuel self) self (VC "None" []) me
+  | Close id => gen_ChannelSlots_remove ext_st_model self (VN id)
+  | _ => (self, VStuck)
+  end.
+
+Fixpoint grun (me self : val) (ops : list op) : list val * val :=
+  match ops with
+  | [] => ([], self)
+  | o :: ops' => let '(self', r) := gstep me self o in
+                 let '(rs, self'') := grun me self' ops' in (r :: rs, self'')
+  end.
+
+(* what the API hands back for the model's result *)
+Definition enc_step_res (o : op) (r : res) : val :=
+  match o, r with
+  | Close id, RRemoved true => VC "Some" [VC "slot" [VN id]]
+  | Close _, _ => VC "None" []
+  | _, _ => enc_res r
+  end.
+
+(* C10 AS A THEOREM ABOUT THE TRANSLATED CODE: any sequence of opens and closes run through the
+   translated insert / remove, from any table satisfying the invariant, gives result by result
+   what the model gives and ends in the model's table - so everything C10_run states (each result
+   allowed by the abstract id set, no panic, termination of the counter loop) holds of it *)
+Theorem run_source_is_model me : forall ops s,
+  Inv s -> forallb is_open_close ops = true ->
+  grun me (enc s) ops = (map (fun '(o, r) => enc_step_res o r) (combine ops (fst (run s ops))), enc (snd (run s ops))).
+Proof.
+  induction ops as [|o ops IH]; intros s HI Hops; [reflexivity|].
+  cbn [forallb] in Hops. apply andb_true_iff in Hops as [Ho Hops].
+  assert (Hnf : is_fail_op o = false) by (destruct o; cbn in Ho |- *; congruence).
+  pose proof (@step_refines s o HI Hnf) as Hstep.
+  cbn [grun run].
+  assert (Hg : gstep me (enc s) o = (enc (snd (step s o)), enc_step_res o (fst (step s o)))).
+  { destruct o as [id| |id| |id|]; try discriminate; cbn [gstep step].
+    - apply insert_some_source_is_model.
+    - unfold gfuel. rewrite ids_slots. apply insert_none_source_inv. exact HI.
+    - rewrite remove_source_is_model. unfold enc_step_res.
+      destruct (fst (remove id s)) as [| | | | |[|]| |]; reflexivity. }
+  rewrite Hg. destruct (step s o) as [r s'] eqn:Es. cbn [fst snd] in *.
+  destruct Hstep as (_ & HI' & _).
+  rewrite (IH s' HI' Hops). destruct (run s' ops) as [rs s'']. reflexivity.
+Qed.
+
 (* non-vacuity: channel_max 3, ids 1 and 3 open, 2 freed earlier, the counter exhausted: the next
    automatic id is the freed 2; then nothing is left *)
 Example slots_source_example :
